@@ -1,8 +1,15 @@
-# sourced by run_check.sh / replay.sh: make hypothesis importable (offline) if /venv does not have it yet
-if ! PYTHONPATH="$HERE/.deps" /venv/bin/python -c "import hypothesis" 2>/dev/null; then
-  PIP_NO_INDEX=1 /venv/bin/pip install -q --no-index --find-links /opt/veriftools/wheels --target "$HERE/.deps" hypothesis >&2 || { echo "HARNESS-ERROR: cannot install hypothesis from the offline wheelhouse" >&2; exit 2; }
-fi
-# atheris (coverage-guided stage of the thorough tier) is optional: without it that stage is skipped and the evidence says so
-if ! PYTHONPATH="$HERE/.deps" /venv/bin/python -c "import atheris" 2>/dev/null; then
-  PIP_NO_INDEX=1 /venv/bin/pip install -q --no-index --find-links /opt/veriftools/wheels --target "$HERE/.deps" atheris >&2 || true
+# sourced by run_check.sh / replay.sh / setup.sh: make hypothesis (required) and atheris (optional) importable, offline.
+# Serialised with a lock so that checks started in parallel on a fresh checkout do not install into .deps at the same time.
+_need() { ! PYTHONPATH="$HERE/.deps" /venv/bin/python -c "import $1" 2>/dev/null; }
+if _need hypothesis || _need atheris; then
+  (
+    if command -v flock >/dev/null 2>&1; then flock 9; fi
+    if _need hypothesis; then
+      PIP_NO_INDEX=1 /venv/bin/pip install -q --no-index --find-links /opt/veriftools/wheels --target "$HERE/.deps" hypothesis >&2 || exit 2
+    fi
+    # atheris (coverage-guided stage of the thorough tier) is optional: without it that stage is skipped and the evidence says so
+    if _need atheris; then
+      PIP_NO_INDEX=1 /venv/bin/pip install -q --no-index --find-links /opt/veriftools/wheels --target "$HERE/.deps" atheris >&2 || true
+    fi
+  ) 9>"$HERE/.deps.lock" || { echo "HARNESS-ERROR: cannot install hypothesis from the offline wheelhouse" >&2; exit 2; }
 fi
